@@ -184,6 +184,12 @@ def textLt : Text → Text → Bool
   | _ :: _, [] => false
   | a :: as, b :: bs => if a.toNat < b.toNat then true else if b.toNat < a.toNat then false else textLt as bs
 
+/-- `sorted(strings)` (code point order, stable insertion sort) -/
+def insertSorted (x : Text) : List Text → List Text
+  | [] => [x]
+  | y :: ys => if textLt x y then x :: y :: ys else y :: insertSorted x ys
+def sortTexts (l : List Text) : List Text := l.foldr insertSorted []
+
 /-- `int(c)` for a character matched by `\d`: the decimal digits of every script come in runs of ten
     (`Generated.digitRanges`, read off the interpreter; the values are compared with CPython on every run) -/
 def digitVal (c : Char) : Nat :=
@@ -240,12 +246,17 @@ def lineFor (parsed : List Parsed) (stmt : Text) : Text :=
   | some y => prefixFor parsed stmt ++ [' '] ++ y ++ [' '] ++ stmt
   | none => prefixFor parsed stmt ++ [' '] ++ stmt
 
-/-- `merge_copyright_lines`; the input list is the iteration order of the set. The merged
-    line is built directly from the prefix text, the year range and the statement. -/
+/-- the body of `merge_copyright_lines` on the lines in the order in which the loop meets them.
+    The merged line is built directly from the prefix text, the year range and the statement.
+    Ties (equally frequent prefixes of one holder, equal years in different scripts) go to the
+    line met first. -/
 def mergeLinesWith (endRe : Re) (lines : List Text) : List Text :=
   let parsed := parseLines endRe lines
   dedup (parsed.map fun x => lineFor parsed x.1)
 
-def mergeLines (lines : List Text) : List Text := mergeLinesWith Generated.endRe lines
+/-- `merge_copyright_lines`: `for line in sorted(copyright_lines)` — the loop meets the lines in
+    code point order, not in the iteration order of the set (fixes/c10-merge-order.diff), so the
+    result is a function of the set. -/
+def mergeLines (lines : List Text) : List Text := mergeLinesWith Generated.endRe (sortTexts lines)
 
 end Model
